@@ -157,18 +157,18 @@ func (g *gen) lookupName(env *specEnv, name string) (Val, error) {
 		if v, ok := env.vars[name+"$result"]; ok {
 			return v, nil
 		}
+		for _, fv := range fn.FreeVars {
+			if fv.Name() == name {
+				pv := g.val(fv)
+				return g.load(pv, fv.Type().(*types.Pointer).Elem()), nil
+			}
+		}
 		if dr, ok := g.debugVals[name]; ok {
 			v := g.val(dr.v)
 			if dr.isAddr {
 				return g.load(v, dr.v.Type().Underlying().(*types.Pointer).Elem()), nil
 			}
 			return v, nil
-		}
-		for _, fv := range fn.FreeVars {
-			if fv.Name() == name {
-				pv := g.val(fv)
-				return g.load(pv, fv.Type().(*types.Pointer).Elem()), nil
-			}
 		}
 		// address-taken locals (Alloc with the variable's name)
 		for _, b := range fn.Blocks {
